@@ -72,6 +72,8 @@ class Harness:
         uns = find_unsupported(self.ast)
         self.unsupported = uns
         self.replay = None
+        from .parallel import is_worker
+        self.worker = is_worker()
 
     # ------------------------------------------------------------------------------------
     def log(self, *a):
